@@ -1157,5 +1157,5 @@ Theorem lexer_tokens_mono : forall input toks e, lex input = (toks, e) ->
 Proof.
   intros input toks e E. destruct (lex_spans_ok _ _ _ E) as (F & O & _). split; [eapply ordered_mono; eauto|].
   intros x Hx. apply in_map_iff in Hx. destruct Hx as [[[l k] r] [<- Ht]]. rewrite Forall_forall in F.
-  specialize (F _ Ht). cbn in F. cbn. tauto.
+  specialize (F _ Ht). unfold tok_ok, span_ok in F. cbn [span_of snd]. tauto.
 Qed.
